@@ -42,7 +42,7 @@ def trees(draw):
                 child.place = draw(st.sampled_from(['same', 'sub', 'parent', 'sibling', 'incdir', 'incdir2']))
                 # names are unique, except that the main file may pull in a `defs.asm` from both its sub-directory and its
                 # sibling directory (same name in several directories, never both reachable from one include line)
-                child.name = 'f%d.asm' % counter[0]
+                child.name = ('f%d.asm' if draw(st.integers(0, 3)) else 'fX%d.Asm') % counter[0]   # (file names are case-sensitive)
                 # the same written name may be used by includers that live in different directories (each resolves to its own
                 # neighbour); -i files and everything included from below a -i directory keep unique names (write_tree enforces
                 # it) so that no include line ever has two documented candidates by accident
@@ -156,7 +156,7 @@ def write_tree(node, directory, rootdir, names_used, stats, depth=0, anc_dirs=()
         k = 0
         while path in names_used:   # keep every file distinct: rename on collision
             k += 1
-            base = child.name.replace('.asm', '_%d.asm' % k)
+            base = child.name.replace('.asm', '_%d.asm' % k).replace('.Asm', '_%d.Asm' % k)
             path = os.path.join(cdir, base)
             written = written.rsplit('/', 1)[0] + '/' + base if '/' in written else base
         names_used.add(path)
@@ -176,6 +176,13 @@ def write_tree(node, directory, rootdir, names_used, stats, depth=0, anc_dirs=()
         body = write_tree(child, cdir, rootdir, names_used, stats, depth + 1, anc_dirs + (directory,))
         with open(path, 'w', encoding='utf-8') as f:
             f.write(body)
+        twin = os.path.join(os.path.dirname(path), os.path.basename(path).lower())
+        if twin != path and twin not in names_used:
+            # an all-lower-case twin right next to a mixed-case file name: never the file that was asked for
+            with open(twin, 'w', encoding='utf-8') as f:
+                f.write('error the lower-case twin of a mixed-case include name was included\n')
+            names_used.add(twin)
+            stats['case_twins'] = stats.get('case_twins', 0) + 1
         if child.alt_lines is not None:
             alt = os.path.join(rootdir, 'inc1', os.path.basename(path))
             if alt not in names_used:
@@ -196,7 +203,12 @@ def write_tree(node, directory, rootdir, names_used, stats, depth=0, anc_dirs=()
         text.append(line)
         stats['names'].append(os.path.basename(path))
         stats.setdefault('written', {}).setdefault(written, set()).add(path)
-    return '\n'.join(text) + ('\n' if text else '')
+    body = '\n'.join(text) + ('\n' if text else '')
+    if body and env.chash(body)[0] % 4 == 0:
+        # one file in four ends without a final newline (a pure function of the file's text, so replays see the same)
+        stats['no_final_newline'] = stats.get('no_final_newline', 0) + 1
+        body = body[:-1]
+    return body
 
 
 def run_cli(a, argv, cwd):
@@ -303,6 +315,10 @@ def judge(case, res):
         res.count('trees_with_a_file_included_twice')
     if stats.get('dot_slash_names'):
         res.count('trees_with_dot_slash_include_names')
+    if stats.get('case_twins'):
+        res.count('trees_with_mixed_case_include_names')
+    if stats.get('no_final_newline'):
+        res.count('trees_with_a_file_without_final_newline')
     if any(len(v) > 1 for v in stats.get('written', {}).values()):
         res.count('trees_where_one_include_text_means_different_files')
     if len(set(stats['names'])) < len(stats['names']):
